@@ -30,6 +30,18 @@ fn own_state(t: &T) -> Option<Datum<State>> {
 fn set_state(t: &T, time: i64, s: State) {
     let _ = Settable::<Datum<State>, E>::set(&mut *t.borrow_mut(), Datum::new(Time(time), s));
 }
+/// what a terminal whose own slot holds `own` reads when its partner's own slot holds `partner` (None = not connected):
+/// asked of a scratch pair of the crate's own terminals (the read semantics themselves are C09's business)
+fn read_as_if(own: Option<Datum<State>>, partner: Option<Option<Datum<State>>>) -> Option<Rd> {
+    let a: T = Terminal::new();
+    let b: T = Terminal::new();
+    if let Some(d) = own { let _ = Settable::<Datum<State>, E>::set(&mut *a.borrow_mut(), d); }
+    if let Some(p) = partner {
+        if let Some(d) = p { let _ = Settable::<Datum<State>, E>::set(&mut *b.borrow_mut(), d); }
+        connect(&a, &b);
+    }
+    read_state(&a)
+}
 fn set_cmd(t: &T, time: i64, c: Command) {
     let _ = Settable::<Datum<Command>, E>::set(&mut *t.borrow_mut(), Datum::new(Time(time), c));
 }
@@ -121,6 +133,10 @@ fn rounds<'a>(rep: &mut Report, sub: &'static str, case: u64, kind: Kind, terms:
     let name = kind_name(kind);
     let conn: Vec<bool> = (0..n).map(|_| rng.chance(0.6)).collect();
     for i in 0..n { if conn[i] { connect(&ext[i], terms[i]); } }
+    // delivery by following: some own terminals receive their measurement from a getter they follow (it is pulled in by
+    // the device's update, which updates its terminals first) instead of by set()
+    let fsrc: Vec<Option<Src<Datum<State>>>> = (0..n).map(|_| if rng.chance(0.2) { Some(Src::<Datum<State>>::new()) } else { None }).collect();
+    for i in 0..n { if let Some(src) = &fsrc[i] { Settable::<Datum<State>, E>::follow(&mut *terms[i].borrow_mut(), src.dynref()); } }
     let mut clock = rng.range_i64(-(1 << 40), 1 << 40);
     let consistent_round = rng.chance(0.15);
     // whole-case magnitude: ordinary, or tiny (an absolute epsilon in the code would only show there)
@@ -152,7 +168,18 @@ fn rounds<'a>(rep: &mut Report, sub: &'static str, case: u64, kind: Kind, terms:
                 }
             }
         }
+        let mut pending: Vec<Option<Datum<State>>> = vec![None; n];
+        for src in fsrc.iter().flatten() { src.none(); }
         for (which, i, t, s) in &writes {
+            if *which == 0 {
+                if let Some(src) = &fsrc[*i] {
+                    // (a later write to the same terminal in this round replaces an earlier one, as a getter would)
+                    src.some(*t, Datum::new(Time(*t), *s));
+                    pending[*i] = Some(Datum::new(Time(*t), *s));
+                    log.push_str(&format!("r{} followed-getter of own[{}] t={} {:?}; ", round, i, t, s));
+                    continue;
+                }
+            }
             let tgt: &T = if *which == 0 { terms[*i] } else { &ext[*i] };
             set_state(tgt, *t, *s);
             log.push_str(&format!("r{} set {}[{}] t={} {:?}; ", round, if *which == 0 { "own" } else { "ext" }, i, t, s));
@@ -165,8 +192,13 @@ fn rounds<'a>(rep: &mut Report, sub: &'static str, case: u64, kind: Kind, terms:
             }
         }
         // ---- read -> update -> read back
-        let reads: Vec<Option<Rd>> = terms.iter().map(|t| read_state(t)).collect();
-        let before: Vec<Option<Datum<State>>> = terms.iter().map(|t| own_state(t)).collect();
+        // (a terminal with a pending followed measurement reads as if that measurement were already in its own slot: the
+        // device pulls it in before it looks)
+        let reads: Vec<Option<Rd>> = (0..n).map(|i| match pending[i] {
+            Some(d) => { rep.tally(&format!("reads_with_followed_measurement/{}", name)); read_as_if(Some(d), if conn[i] { Some(own_state(&ext[i])) } else { None }) }
+            None => read_state(terms[i]),
+        }).collect();
+        let before: Vec<Option<Datum<State>>> = (0..n).map(|i| pending[i].or_else(|| own_state(terms[i]))).collect();
         let mask: u32 = reads.iter().enumerate().map(|(i, r)| (r.is_some() as u32) << i).sum();
         rep.tally(&format!("presence/{}/{:b}", name, mask));
         rep.distinct((name.clone(), mask, round.min(2), consistent_round));
@@ -273,7 +305,10 @@ fn main() {
         let mut rng = Rng::new(args.seed, 802, case);
         let ratio = if rng.chance(0.2) { *rng.pick(&[1.0f32, -1.0, 2.0, -0.5, 100.0, -0.01]) } else { (rng.sign() * rng.log_uniform(1e-2, 1e2)) as f32 };
         let ext: Vec<T> = (0..2).map(|_| Terminal::new()).collect();
-        let mut dev = if case % 2 == 0 { GearTrain::<E>::with_ratio_raw(ratio) } else { GearTrain::<E>::with_ratio(Quantity::dimensionless(ratio)) };
+        let mut dev = match catch(|| if case % 2 == 0 { GearTrain::<E>::with_ratio_raw(ratio) } else { GearTrain::<E>::with_ratio(Quantity::dimensionless(ratio)) }) {
+            Ok(d) => d,
+            Err(m) => { rep.violation("C08/constructor-panic/GearTrain", "gear", case, format!("ratio {} ({}): {}", ratio, if case % 2 == 0 { "with_ratio_raw" } else { "with_ratio" }, m)); continue; }
+        };
         let terms = vec![dev.get_terminal_1(), dev.get_terminal_2()];
         rounds(&mut rep, "gear", case, Kind::Gear(ratio), &terms, &ext, &mut || dev.update(), &mut rng);
     }
@@ -320,6 +355,7 @@ fn main() {
         if rep.want_sample("teeth") { rep.sample("teeth", format!("teeth {:?} expected ratio {}", teeth, expect_ratio)); }
     }
     // coverage floors: every presence subset of the 2- and 3-terminal devices
+    for name in ["Invert", "GearTrain", "Differential/Equal", "Differential/Sum"] { rep.floor(&format!("reads_with_followed_measurement/{}", name), 100); }
     for name in ["Invert", "GearTrain"] { for m in 0..4u32 { rep.floor(&format!("presence/{}/{:b}", name, m), 20); } }
     for mode in ["Side1", "Side2", "Sum", "Equal"] { for m in 0..8u32 { rep.floor(&format!("presence/Differential/{}/{:b}", mode, m), 10); } }
     for n in 1..=6 { rep.floor(&format!("slots_projected/Axle<{}>", n), 50); }
